@@ -42,8 +42,16 @@ def ev(e, env=None):
             return a / b
         a, b = _f(a), _f(b)
         if b == 0:
-            return math.nan if (a == 0 or math.isnan(a)) else math.copysign(math.inf, a)
+            if a == 0 or math.isnan(a):
+                return math.nan
+            if env and env.get("signed_zero") == "unjudged":   # formulas (C17): the sign of a computed zero is not determined by the documentation
+                raise Unjudged("sign of zero")
+            return math.copysign(math.inf, a)
         return a / b
+    if k == "fn1":
+        return _fn1(e[1], _f(ev(e[2], env)))
+    if k == "fn2":
+        return _fn2(e[1], _f(ev(e[2], env)), _f(ev(e[3], env)))
     a = ev(e[1], env)
     if k == "neg":
         return -a
@@ -80,3 +88,106 @@ def has_node(e, kind) -> bool:
 
 def is_exact(e) -> bool:
     return e[0] == "q"
+
+
+class Unjudged(Exception):
+    """the documented meaning does not determine the value (NaN operand of min/max, signed zero to a negative power)"""
+
+
+def _pow(a, b):
+    """IEEE 754 pow, which is what 'power' means on extended reals: x^0 = 1 and 1^y = 1 even for NaN"""
+    if b == 0 or a == 1:
+        return 1.0
+    if math.isnan(a) or math.isnan(b):
+        return math.nan
+    odd = math.isfinite(b) and float(b).is_integer() and int(b) % 2 == 1
+    if a == 0 and b < 0:
+        if odd:
+            raise Unjudged("sign of zero")
+        return math.inf
+    try:
+        return math.pow(a, b)
+    except ValueError:
+        return math.nan
+    except OverflowError:
+        return -math.inf if (a < 0 and odd) else math.inf
+
+
+def _safe(f, *a):
+    try:
+        return f(*a)
+    except (ValueError, ZeroDivisionError):
+        return math.nan
+    except OverflowError:
+        return math.inf
+
+
+def _fn1(name, x):
+    if name == "not-judged":
+        raise Unjudged("discontinuous element on an operand binary64 cannot hold exactly")
+    if name == "truthy":
+        return 1.0 if x != 0 else 0.0
+    if name == "not":
+        return 1.0 if x == 0 else 0.0
+    if math.isnan(x):
+        return math.nan
+    table = {"acos": math.acos, "asin": math.asin, "atan": math.atan, "ceil": math.ceil, "cos": math.cos, "cosh": math.cosh, "exp": math.exp,
+             "abs": abs, "fabs": abs, "floor": math.floor, "log": math.log, "log10": math.log10, "sin": math.sin, "sinh": math.sinh, "sqrt": math.sqrt,
+             "tan": math.tan, "tanh": math.tanh, "log1p": math.log1p, "acosh": math.acosh, "asinh": math.asinh, "atanh": math.atanh}
+    if name == "round":
+        return float(round(x)) if math.isfinite(x) else x  # Python's round is half-to-even, like numpy.round
+    if name in ("floor", "ceil") and not math.isfinite(x):
+        return x
+    if (name in ("log", "log10") and x == 0) or (name == "log1p" and x == -1):
+        return -math.inf
+    if name == "atanh" and abs(x) == 1:
+        return math.copysign(math.inf, x)
+    try:
+        return float(table[name](x))
+    except ValueError:          # outside the domain
+        return math.nan
+    except OverflowError:       # exp, cosh, sinh
+        return -math.inf if (name == "sinh" and x < 0) else math.inf
+
+
+def _fn2(name, a, b):
+    if name == "not-judged":
+        raise Unjudged("discontinuous element on an operand binary64 cannot hold exactly")
+    if name == "and":
+        return 1.0 if (a != 0 and b != 0) else 0.0
+    if name == "or":
+        return 1.0 if (a != 0 or b != 0) else 0.0
+    if name in ("gt", "ge", "eq", "neq", "le", "lt"):
+        both_nan = math.isnan(a) and math.isnan(b)
+        return float({"gt": a > b, "ge": a >= b or both_nan, "eq": a == b or both_nan, "neq": not (a == b or both_nan), "le": a <= b or both_nan, "lt": a < b}[name])
+    if name == "pow":
+        return _pow(a, b)
+    if name == "div-by-zero":
+        if a == 0 or math.isnan(a):
+            return math.nan
+        raise Unjudged("sign of zero")
+    if name == "atan2-of-zero":
+        if math.isnan(b):
+            return math.nan
+        if b > 0:
+            return 0.0
+        raise Unjudged("sign of zero")
+    if math.isnan(a) or math.isnan(b):
+        if name in ("min", "max"):
+            raise Unjudged("NaN operand of min/max")
+        return math.nan
+    if name == "min":
+        return min(a, b)
+    if name == "max":
+        return max(a, b)
+    if name == "atan2":
+        if a == 0 and b <= 0:
+            raise Unjudged("sign of zero")
+        return math.atan2(a, b)
+    if name == "fmod":
+        return float(_safe(math.fmod, a, b))
+    if name == "remainder":
+        if b == 0 or math.isinf(a):
+            return math.nan
+        return float(a - b * math.floor(a / b)) if math.isfinite(b) else (a if (a >= 0) == (b > 0) or a == 0 else b)
+    raise ValueError(name)
